@@ -199,6 +199,15 @@ pub fn universal_verdict(prop: &str, sc: &Scenario, out: &RunOut) -> Verdict {
             v.inconclusive = Some(format!("{:?}", d));
         }
     }
+    if prop == "C12" && v.violations.is_empty() && !has_bad {
+        if let Some((id, n)) = super::conv::closed_with_unread(sc, out, 0, &e) {
+            v.violations.push(Violation {
+                clause: "C12.orderly_close".into(),
+                signature: "mixed-feature conversation".into(),
+                detail: format!("{}: the server shut down its reading side / closed the socket while {} bytes of the body of the connection-ending request {} were still unread", sc.note, n, id),
+            });
+        }
+    }
     if prop == "C09" && v.violations.is_empty() {
         // heads of everything delivered are the heads sent
         for m in e.msgs.iter().filter(|m| m.class == Class::Valid) {
